@@ -6,6 +6,7 @@ import (
 	"context"
 	"encoding/json"
 	"fmt"
+	"github.com/0chain/common/core/util"
 	"strings"
 	"testing"
 	"time"
@@ -84,9 +85,20 @@ func TestSaveCompleteAndCrashSafe(t *testing.T) {
 						rt.Fatalf("history %s: crash in round %d after %d writes damaged an earlier root: %v", desc, i, n, err)
 					}
 				}
+				// a reader opened after the restart at the root the interrupted round was going to save: it may find nodes
+				// missing now; it is kept and must read everything once the round has been executed and saved again
+				reader := mptkit.NewTrie(mptkit.Reopen(cdir), rd.Version, root)
+				_, _ = reader.HasMissingNodes(context.Background())
+				for p := range s.Models[i] {
+					_, _ = reader.GetNodeValueRaw(util.Path(p))
+					break
+				}
 				root2, _, err := rounds.ExecRound(cdir, prevRoot, rd)
 				if err != nil {
 					rt.Fatalf("history %s: re-executing round %d after crash at %d: %v", desc, i, n, err)
+				}
+				if c, err := mptkit.Content(reader); err != nil || !mptkit.EqualContent(c, s.Models[i]) {
+					rt.Fatalf("history %s: round %d crashed after %d writes, a reader was opened at its root, the round was executed and saved again: the same reader now reads %s (%v), saved content is %s", desc, i, n, mptkit.Show(c), err, mptkit.Show(s.Models[i]))
 				}
 				if !bytes.Equal(root2, root) {
 					rt.Fatalf("history %s: round %d re-executed after crash at %d gives root %x, crash-free %x", desc, i, n, root2, root)
